@@ -49,6 +49,8 @@ type loopCtx struct {
 }
 
 type FuncExec struct {
+	tailStmt ast.Stmt // tail-split: the statement whose branch states are handed over un-merged
+	tailOuts []*State
 	ctx      *Ctx
 	reg      *Registry
 	pkg      *packages.Package
@@ -86,6 +88,7 @@ type FuncExec struct {
 	modSet   map[string][]string // own modifies set: key sort -> entry-state terms (nil map: no modifies clause)
 }
 
+// (tail-split bookkeeping lives in FuncExec: tailStmt, tailOuts)
 type ghFact struct {
 	comp string
 	fact string
@@ -187,6 +190,12 @@ func (fx *FuncExec) recordGoodHeap(st *State, comps []string) {
 			fx.ghFacts = append(fx.ghFacts, ghFact{c, eq(sel(cur, "null_"+mi.Sort), "((as const (Array "+mi.K+" Bool)) false)"), cur, false})
 		case strings.HasPrefix(c, "MV_"):
 			mi := r.maps[strings.TrimPrefix(c, "MV_")]
+			// closed maps: a key outside the domain holds the zero value
+			if _, ok := st.vars[mi.Dom]; !ok {
+				fx.H(st, mi.Dom)
+			}
+			fx.ghFacts = append(fx.ghFacts, ghFact{c, fmt.Sprintf("(forall ((m %s) (k %s)) (! (or (select (select %s m) k) (= (select (select %s m) k) %s)) :pattern ((select (select %s m) k))))",
+				mi.Sort, mi.K, st.vars[mi.Dom], cur, r.Zero(mi.V), cur), cur, false})
 			if al, ok := r.allocOf[mi.V]; ok && mi.V != "SRef" {
 				fx.ghFacts = append(fx.ghFacts, ghFact{c, fmt.Sprintf("(forall ((m %s) (k %s)) (! (or (= (select (select %s m) k) null_%s) (select %s (select (select %s m) k))) :pattern ((select (select %s m) k))))",
 					mi.Sort, mi.K, cur, mi.V, st.vars[al], cur, cur), cur, false})
@@ -194,6 +203,18 @@ func (fx *FuncExec) recordGoodHeap(st *State, comps []string) {
 		case strings.HasPrefix(c, "F_") || strings.HasPrefix(c, "PV_"):
 			cs := r.compSort[c]
 			ks, vs := arraySorts(cs)
+			if r.imm[c] {
+				// immutable field: a function of the reference; an allocated object's
+				// immutable reference field is nil or allocated
+				if al, ok := r.allocOf[vs]; ok && vs != "SRef" {
+					if alo, ok := r.allocOf[ks]; ok {
+						f := fmt.Sprintf("(forall ((r %s)) (! (=> (select %s r) (or (= (imm_%s r) null_%s) (select %s (imm_%s r)))) :pattern ((imm_%s r))))",
+							ks, fx.H(st, alo), c, vs, fx.H(st, al), c, c)
+						fx.ghFacts = append(fx.ghFacts, ghFact{c, f, "imm_" + c, false})
+					}
+				}
+				continue
+			}
 			if al, ok := r.allocOf[vs]; ok && vs != "SRef" {
 				fx.ghFacts = append(fx.ghFacts, ghFact{c, fmt.Sprintf("(forall ((r %s)) (! (or (= (select %s r) null_%s) (select %s (select %s r))) :pattern ((select %s r))))",
 					ks, cur, vs, st.vars[al], cur, cur), cur, false})
@@ -507,8 +528,34 @@ func (o *Obligation) Render(_ string) string { return o.RenderDepth(0) }
 
 // RenderDepth renders the obligation with the assumptions restricted to those
 // within `depth` symbol-sharing hops of the goal (0: the whole cone).
-func (o *Obligation) RenderDepth(depth int) string {
+func (o *Obligation) RenderDepth(depth int) string { return o.RenderOpts(depth, false) }
+
+// RenderOpts: with hideDefs, the defining axioms of preds that do not occur in
+// the goal are left out (their applications stay as uninterpreted atoms).
+// Leaving out axioms is sound for "unsat".
+func (o *Obligation) RenderOpts(depth int, hideDefs bool) string {
 	fx := o.fx
+	var hide func(string) bool
+	if hideDefs {
+		gs := map[string]bool{}
+		symbolsOf(o.Neg, gs)
+		// preds reachable from the goal through pred bodies stay revealed
+		reveal := map[string]bool{}
+		var visit func(sy string)
+		visit = func(sy string) {
+			if !strings.HasPrefix(sy, "gd_") || reveal[sy] {
+				return
+			}
+			reveal[sy] = true
+			for dep := range fx.reg.namedDeps[sy] {
+				visit(dep)
+			}
+		}
+		for sy := range gs {
+			visit(sy)
+		}
+		hide = func(fn string) bool { return !reveal[fn] }
+	}
 	var body strings.Builder
 	seen := map[string]bool{}
 	for _, p := range sliceAssumptions(o.PC, o.Neg, o.Expect == "sat", depth) {
@@ -521,6 +568,30 @@ func (o *Obligation) RenderDepth(depth int) string {
 	}
 	syms := map[string]bool{}
 	symbolsOf(body.String(), syms)
+	var goalFam map[string]bool
+	if depth < 0 {
+		goalFam = map[string]bool{}
+		gs := map[string]bool{}
+		symbolsOf(o.Neg, gs)
+		for sy := range gs {
+			if f := heapFamily(sy); f != "" {
+				goalFam[f] = true
+				if strings.HasPrefix(f, "MD_") {
+					goalFam["MV_"+strings.TrimPrefix(f, "MD_")] = true
+				}
+				if strings.HasPrefix(f, "MV_") {
+					goalFam["MD_"+strings.TrimPrefix(f, "MV_")] = true
+				}
+			}
+			a := strings.TrimPrefix(strings.TrimPrefix(sy, "H0_"), "j_")
+			if strings.HasPrefix(a, "AL_") {
+				if i := strings.Index(a, "!"); i >= 0 {
+					a = a[:i]
+				}
+				goalFam[a] = true
+			}
+		}
+	}
 	// good-heap facts: only for heap versions the obligation itself mentions
 	var gh strings.Builder
 	compMentioned := map[string]bool{}
@@ -542,6 +613,17 @@ func (o *Obligation) RenderDepth(depth int) string {
 			if !(syms[g.key] || (g.chain && compMentioned[g.comp])) {
 				continue
 			}
+			if goalFam != nil {
+				// family attempt: heap facts only for the components (and
+				// allocation sets) the goal itself speaks about
+				if strings.HasPrefix(g.comp, "AL_") {
+					if !goalFam[g.comp] {
+						continue
+					}
+				} else if f := heapFamily(g.comp); f != "" && !goalFam[f] {
+					continue
+				}
+			}
 			seen[g.fact] = true
 			changed = true
 			gh.WriteString("(assert " + g.fact + ")\n")
@@ -550,7 +632,7 @@ func (o *Obligation) RenderDepth(depth int) string {
 	}
 	full := gh.String() + body.String()
 	var b strings.Builder
-	b.WriteString(fx.reg.PreambleFor(full, fx.axiomPkgOK()))
+	b.WriteString(fx.reg.PreambleFor(full, fx.axiomPkgOK(), hide))
 	for _, d := range fx.decls {
 		if syms[declName(d)] {
 			b.WriteString(d + "\n")
@@ -712,6 +794,13 @@ func (fx *FuncExec) axiomPkgOK() func(string) bool {
 
 var noSlice = os.Getenv("VERIF_NOSLICE") == "1"
 
+var hubLimit = func() int {
+	if v, err := strconv.Atoi(os.Getenv("VERIF_HUB")); err == nil {
+		return v
+	}
+	return 12
+}()
+
 // sliceAssumptions keeps only the assumptions in the cone of influence of the
 // goal: those sharing (transitively) a program-level symbol with it. Dropping
 // an assumption is always sound; it only makes the query smaller.
@@ -719,9 +808,12 @@ func sliceAssumptions(pc []string, goal string, keepAll bool, depth int) []strin
 	if keepAll || noSlice || len(pc) < 40 {
 		return pc
 	}
+	if depth < 0 {
+		return sliceByFamily(pc, goal)
+	}
 	link := func(sym string) bool {
 		if ubiquitous[sym] || strings.HasPrefix(sym, "AL_") || strings.HasPrefix(sym, "H0_AL_") || strings.HasPrefix(sym, "null_") ||
-			strings.HasPrefix(sym, "uf_") || strings.HasPrefix(sym, "box_") || strings.HasPrefix(sym, "unbox_") || strings.HasPrefix(sym, "impl_") ||
+			strings.HasPrefix(sym, "uf_") || strings.HasPrefix(sym, "gd_") || strings.HasPrefix(sym, "box_") || strings.HasPrefix(sym, "unbox_") || strings.HasPrefix(sym, "impl_") ||
 			strings.HasPrefix(sym, "str_") || strings.HasPrefix(sym, "gv_") || strings.HasPrefix(sym, "imm_") || strings.HasPrefix(sym, "cap_") ||
 			sym == "sref" || sym == "soff" || sym == "slen" || sym == "mk_slice" || sym == "nil_slice" || sym == "tag" || sym == "fn_code" || sym == "fn_nil" ||
 			sym == "rv_invalid" || sym == "rt_nil" || sym == "unit" || sym == "wrap32" || sym == "wrap8" {
@@ -743,6 +835,22 @@ func sliceAssumptions(pc []string, goal string, keepAll bool, depth int) []strin
 			}
 		}
 		psyms[i] = ps
+	}
+	// in depth-limited mode, symbols shared by many assumptions (program
+	// variables used everywhere, long-lived heap versions) do not link
+	hub := map[string]bool{}
+	if depth > 0 {
+		cnt := map[string]int{}
+		for _, ps := range psyms {
+			for sy := range ps {
+				cnt[sy]++
+			}
+		}
+		for sy, n := range cnt {
+			if n > hubLimit {
+				hub[sy] = true
+			}
+		}
 	}
 	rel := map[string]bool{}
 	gs := map[string]bool{}
@@ -781,12 +889,74 @@ func sliceAssumptions(pc []string, goal string, keepAll bool, depth int) []strin
 			}
 		}
 		for sy := range add {
-			rel[sy] = true
+			if !hub[sy] {
+				rel[sy] = true
+			}
 		}
 	}
 	var out []string
 	for i, p := range pc {
 		if in[i] {
+			out = append(out, p)
+		}
+	}
+	return out
+}
+
+
+// heapFamily maps a heap-component symbol (any version) to its component
+// name, "" for other symbols.
+func heapFamily(sym string) string {
+	sym = strings.TrimPrefix(sym, "H0_")
+	sym = strings.TrimPrefix(sym, "j_")
+	if i := strings.Index(sym, "!"); i >= 0 {
+		sym = sym[:i]
+	}
+	for _, p := range []string{"F_", "MD_", "MV_", "SE_", "PV_", "GV_"} {
+		if strings.HasPrefix(sym, p) {
+			return sym
+		}
+	}
+	return ""
+}
+
+// sliceByFamily keeps the unquantified assumptions and those quantified ones
+// that speak only about heap components the goal itself mentions (in any
+// version). Sound (fewer assumptions); used as a first attempt.
+func sliceByFamily(pc []string, goal string) []string {
+	gs := map[string]bool{}
+	symbolsOf(goal, gs)
+	gf := map[string]bool{}
+	for sy := range gs {
+		if f := heapFamily(sy); f != "" {
+			gf[f] = true
+			// a map's domain and values go together
+			if strings.HasPrefix(f, "MD_") {
+				gf["MV_"+strings.TrimPrefix(f, "MD_")] = true
+			}
+			if strings.HasPrefix(f, "MV_") {
+				gf["MD_"+strings.TrimPrefix(f, "MV_")] = true
+			}
+		}
+	}
+	var out []string
+	for _, p := range pc {
+		if !strings.Contains(p, "(forall ") && !strings.Contains(p, "(exists ") {
+			if len(p) < 4000 {
+				out = append(out, p)
+			}
+			continue
+		}
+		ps := map[string]bool{}
+		symbolsOf(p, ps)
+		ok := true
+		for sy := range ps {
+			if f := heapFamily(sy); f != "" && !gf[f] {
+				ok = false
+				break
+			}
+		}
+		if ok {
 			out = append(out, p)
 		}
 	}
